@@ -416,7 +416,10 @@ def run_loading(tier, rng, viol, stats, samples):
         tables = {}
         for xy in chips:
             n = rng.randint(1, 30)
-            priors[xy], _ = prepare(model, xy, "short" if xy == failing else rng.choice(("fresh", "offset", "holes")), n, rng)
+            state = "short" if xy == failing else rng.choice(("fresh", "offset", "holes"))
+            if k % 10 == 5 and xy == chips[0] and xy != failing:
+                n, state = 1023, "fresh"           # the largest table a clean router can take (entry 0 belongs to the system)
+            priors[xy], _ = prepare(model, xy, state, n, rng)
             tables[xy] = make_entries("random", n, rng, E, Routes)
         model.boot()
         _scamp.attach(mc, model)
